@@ -303,6 +303,15 @@ def _shape_case(rng, i):
     return {"kind": kind, "max": mx, "on_miss": om, "init": init, "threads": threads, "scheds": _sys_scheds(a, b)}
 
 
+def _grid3_case(rng, cap):
+    """three threads, one operation each: thread a pre-empted before its opcode k1, thread b runs and
+    is pre-empted before its opcode k2, thread c runs to the end, then the others finish -- all (k1, k2)"""
+    mx = rng.choice([1, 2, 2])
+    ops = [rng.choice(GRID_OPS) for _ in range(3)]
+    return {"kind": rng.choice(["LRI", "LRU"]), "max": mx, "on_miss": rng.choice([0, 0, 1]),
+            "init": [[0, 1], [1, 2]][:mx], "threads": [[o] for o in ops], "scheds": [["grid2", rng.randrange(3), cap]]}
+
+
 def _all_pairs_sweeps():
     """thorough tier: EVERY ordered pair of the 19 representative operations, thread 0 pre-empted at
     EVERY opcode boundary (one pre-emption), thread 1 runs in the window -- complete, no stride"""
@@ -335,6 +344,8 @@ def generate(rng, tier, n):
             yield _shape_case(rng, i)
     for _ in range(6 if tier == "quick" else 120):
         yield _grid_case(rng, 300 if tier == "quick" else 2500)
+    for _ in range(2 if tier == "quick" else 60):
+        yield _grid3_case(rng, 300 if tier == "quick" else 1200)
     for i in range(n):
         if i % 10 == 7:
             yield _race_case(rng)
@@ -551,6 +562,7 @@ def _expand_scheds(case):
         if s[0] == "grid2":
             a, cap = s[1] % nth, s[2]
             b = (a + 1) % nth
+            c3 = (a + 2) % nth if nth >= 3 else a      # with 3 threads the second pre-emption hands over to the third
             na, nb = base[a] + 1, base[b] + 1
             s1 = s2 = 1
             while ((na + s1 - 1) // s1) * ((nb + s2 - 1) // s2) > cap:
@@ -563,7 +575,7 @@ def _expand_scheds(case):
             for k1 in range(0, na, s1):
                 out.append((a, [(a, k1, b)]))
                 for k2 in range(0, nb, s2):
-                    out.append((a, [(a, k1, b), (b, k2, a)]))
+                    out.append((a, [(a, k1, b), (b, k2, c3)]))
                     pts += 1
             grid = {"stride": [s1, s2], "n": pts, "opcodes": [na, nb]}
             continue
